@@ -30,11 +30,14 @@ VARIABLES l, sid,
           sent, amb, inj, prom, cnt, viol, aborted, shape,
           lastinj,   \* <<tid, sig>> -> request that injected it last ("cont" / "step" / "syscall")
           foundby,   \* <<tid, sig>> -> "wait_any" / "wait_tid" / "wait_after_interrupt": how the tracer met the delivery-stop
+          maxout,    \* tid -> largest number of queue-worthy signals outstanding for the thread at a prompt (held + owed)
           lastreq    \* tid -> last ptrace request / wait selector class seen for the task
-vars == <<l, sid, stopk, owed, seen, reported, announced, sent, amb, inj, prom, cnt, viol, aborted, shape, lastinj, foundby, lastreq>>
+vars == <<l, sid, stopk, owed, seen, reported, announced, sent, amb, inj, prom, cnt, viol, aborted, shape, lastinj, foundby, maxout, lastreq>>
 
 Get(f, k) == IF k \in DOMAIN f THEN f[k] ELSE 0
 Get2(f, k) == IF k \in DOMAIN f THEN f[k] ELSE "none"
+RECURSIVE SumOver(_, _)
+SumOver(f, K) == IF K = {} THEN 0 ELSE LET x == CHOOSE y \in K : TRUE IN f[x] + SumOver(f, K \ {x})
 Put(f, k, v) == [x \in DOMAIN f \cup {k} |-> IF x = k THEN v ELSE f[x]]
 Kind(t) == IF t \in DOMAIN stopk THEN stopk[t][1] ELSE "none"
 Held(t) == IF t \in DOMAIN stopk THEN stopk[t][2] ELSE "none"
@@ -44,7 +47,7 @@ KindOf(s) == IF s \in Quiet THEN "quiet" ELSE IF s \in Transparent THEN "transpa
 
 Init == /\ l = 1 /\ sid = "" /\ stopk = <<>> /\ owed = <<>> /\ seen = <<>> /\ reported = <<>> /\ announced = <<>>
         /\ sent = Zero /\ amb = {} /\ inj = Zero /\ prom = Zero /\ cnt = Zero /\ viol = <<>> /\ aborted = FALSE /\ shape = <<>>
-        /\ lastinj = <<>> /\ foundby = <<>> /\ lastreq = <<>>
+        /\ lastinj = <<>> /\ foundby = <<>> /\ maxout = <<>> /\ lastreq = <<>>
 
 \* ---- one resume (PTRACE_CONT / PTRACE_SINGLESTEP / PTRACE_SYSCALL with data) ---------------------------------
 Resume(e) ==
@@ -81,7 +84,7 @@ Resume(e) ==
              THEN <<VV("delivered_unreported", e.ev, d, "reported before delivery", "no report", Get2(foundby, <<t, d>>))>> ELSE <<>>)
   /\ lastinj' = IF delivered THEN Put(lastinj, <<t, d>>, e.ev) ELSE lastinj
   /\ lastreq' = Put(lastreq, t, e.ev)
-  /\ UNCHANGED foundby
+  /\ UNCHANGED <<foundby, maxout>>
   /\ UNCHANGED <<sid, seen, reported, sent, amb, prom, cnt, aborted, shape>>
 
 Wait(e) ==
@@ -92,14 +95,14 @@ Wait(e) ==
   /\ seen' = IF s \in SigNames THEN Put(seen, <<t, s>>, Get(seen, <<t, s>>) + 1) ELSE seen
   /\ viol' = viol \o (IF Kind(t) # "none" THEN <<V("model_wait_without_resume", "wait", s, "none", Kind(t))>> ELSE <<>>)
   /\ lastreq' = Put(lastreq, t, IF e.sel = t /\ Get2(lastreq, t) = "interrupt" THEN "wait_after_interrupt" ELSE "wait")
-  /\ UNCHANGED <<sid, owed, reported, announced, sent, amb, inj, prom, cnt, aborted, shape, lastinj>>
+  /\ UNCHANGED <<sid, owed, reported, announced, sent, amb, inj, prom, cnt, aborted, shape, lastinj, maxout>>
   /\ foundby' = IF s \in SigNames THEN Put(foundby, <<t, s>>, IF e.sel # t THEN "wait_any" ELSE IF Get2(lastreq, t) = "interrupt" THEN "wait_after_interrupt" ELSE "wait_tid") ELSE foundby
 
 Send(e) ==
   /\ IF "skipped" \in DOMAIN e THEN UNCHANGED <<sent, amb>>
      ELSE /\ sent' = IF e.coal THEN sent ELSE [sent EXCEPT ![e.sig] = @ + 1]
           /\ amb' = IF e.ambiguous THEN amb \cup {e.sig} ELSE amb
-  /\ UNCHANGED <<sid, stopk, owed, seen, reported, announced, inj, prom, cnt, viol, aborted, shape, lastinj, foundby, lastreq>>
+  /\ UNCHANGED <<sid, stopk, owed, seen, reported, announced, inj, prom, cnt, viol, aborted, shape, lastinj, foundby, maxout, lastreq>>
 
 \* a prompt, projected by the check: [cmd, reports : Seq([sig, tid]), has_cnt, cnt : [sig -> n], failed, detail]
 \* `reported[<<t, s>>]` counts LEGITIMATE reports only: a report is legitimate while a delivery-stop of (t, s) the tracer
@@ -122,8 +125,6 @@ Reports(rs, i, rep, ann, acc) ==     \* returns <<reported', announced', viol-su
                   IF legit THEN Put(rep, <<t, s>>, Get(rep, <<t, s>>) + 1) ELSE rep,
                   IF legit /\ s \notin Quiet THEN Put(ann, <<t, s>>, Get(ann, <<t, s>>) + 1) ELSE ann, acc \o v)
 
-RECURSIVE SumOver(_, _)
-SumOver(f, K) == IF K = {} THEN 0 ELSE LET x == CHOOSE y \in K : TRUE IN f[x] + SumOver(f, K \ {x})
 LegitReports(rep, s) == SumOver(rep, {x \in DOMAIN rep : x[2] = s})
 
 CountOf(rs, s) == Cardinality({i \in 1..Len(rs) : rs[i].sig = s})
@@ -144,6 +145,10 @@ Prompt(e) ==
              THEN <<V("delivered_more_than_sent", e.cmd, CHOOSE s \in D : TRUE, sent, c)>> ELSE <<>>)
        \o (LET D == {s \in Transparent : c[s] > 0} IN
            IF D # {} /\ ~(\E s \in D : cnt[s] > 0) THEN <<V("transparent_signal_delivered", e.cmd, CHOOSE s \in D : TRUE, 0, c)>> ELSE <<>>)
+  /\ maxout' = LET T == DOMAIN stopk \cup {x[1] : x \in DOMAIN owed}
+                    Out(t) == SumOver(owed, {x \in DOMAIN owed : x[1] = t})
+                              + (IF Kind(t) = "signal" /\ Held(t) \in SigNames \ Transparent THEN 1 ELSE 0)
+                IN [t \in T \cup DOMAIN maxout |-> IF t \in T /\ Out(t) > Get(maxout, t) THEN Out(t) ELSE Get(maxout, t)]
   /\ UNCHANGED <<sid, stopk, owed, seen, sent, amb, inj, lastinj, foundby, lastreq>>
 
 \* end of a session: [exited, has_final, final : [sig -> n]]
@@ -165,17 +170,18 @@ End(e) ==
           \o (LET O == {x \in DOMAIN owed : owed[x] > 0} IN
               IF O # {} THEN LET x == CHOOSE y \in O : TRUE IN
                              <<VV("suppressed_never_injected", "exit", x[2], 0, owed,
-                                  IF Cardinality({y \in DOMAIN seen : y[1] = x[1]}) > 1 \/ Get(seen, x) > 1
-                                    THEN "thread_had_second_entry" ELSE "only_entry")>> ELSE <<>>)
+                                  \* the exclude rule needs two queue entries of one thread at the same time: visible as two
+                                  \* outstanding (held or suppressed-and-remembered) signals of the thread at some prompt
+                                  IF Get(maxout, x[1]) >= 2 THEN "thread_had_second_entry" ELSE "only_entry")>> ELSE <<>>)
           \o (LET M == {s \in SigNames : inj[s] # f[s] /\ s \notin Transparent} IN
               IF M # {} THEN <<V("model_accounting_ne_counters", "exit", CHOOSE s \in M : TRUE, inj, f)>> ELSE <<>>)
           ELSE <<>>)
-  /\ UNCHANGED <<sid, stopk, owed, seen, reported, announced, sent, amb, inj, prom, cnt, aborted, shape, lastinj, foundby, lastreq>>
+  /\ UNCHANGED <<sid, stopk, owed, seen, reported, announced, sent, amb, inj, prom, cnt, aborted, shape, lastinj, foundby, maxout, lastreq>>
 
 Reset(e) ==
   /\ sid' = e.id /\ stopk' = <<>> /\ owed' = <<>> /\ seen' = <<>> /\ reported' = <<>> /\ announced' = <<>>
   /\ sent' = Zero /\ amb' = {} /\ inj' = Zero /\ prom' = Zero /\ cnt' = Zero /\ aborted' = FALSE /\ shape' = <<>>
-  /\ lastinj' = <<>> /\ foundby' = <<>> /\ lastreq' = <<>>
+  /\ lastinj' = <<>> /\ foundby' = <<>> /\ maxout' = <<>> /\ lastreq' = <<>>
   /\ UNCHANGED viol
 
 Consume ==
@@ -183,19 +189,19 @@ Consume ==
   /\ l' = l + 1
   /\ LET e == Rec[l] IN
      CASE e.ev = "reset" -> Reset(e)
-       [] e.ev \in {"cont", "step", "syscall"} -> IF e.ret = 0 THEN Resume(e) ELSE UNCHANGED <<sid, stopk, owed, seen, reported, announced, sent, amb, inj, prom, cnt, viol, aborted, shape, lastinj, foundby, lastreq>>
-       [] e.ev = "wait" -> IF e.tid > 0 THEN Wait(e) ELSE UNCHANGED <<sid, stopk, owed, seen, reported, announced, sent, amb, inj, prom, cnt, viol, aborted, shape, lastinj, foundby, lastreq>>
+       [] e.ev \in {"cont", "step", "syscall"} -> IF e.ret = 0 THEN Resume(e) ELSE UNCHANGED <<sid, stopk, owed, seen, reported, announced, sent, amb, inj, prom, cnt, viol, aborted, shape, lastinj, foundby, maxout, lastreq>>
+       [] e.ev = "wait" -> IF e.tid > 0 THEN Wait(e) ELSE UNCHANGED <<sid, stopk, owed, seen, reported, announced, sent, amb, inj, prom, cnt, viol, aborted, shape, lastinj, foundby, maxout, lastreq>>
        [] e.ev = "interrupt" -> /\ lastreq' = Put(lastreq, e.tid, "interrupt")
-                               /\ UNCHANGED <<sid, stopk, owed, seen, reported, announced, sent, amb, inj, prom, cnt, viol, aborted, shape, lastinj, foundby>>
+                               /\ UNCHANGED <<sid, stopk, owed, seen, reported, announced, sent, amb, inj, prom, cnt, viol, aborted, shape, lastinj, foundby, maxout>>
        [] e.ev = "send" -> Send(e)
        [] e.ev = "prompt" -> Prompt(e)
        [] e.ev = "end" -> End(e)
-       [] OTHER -> UNCHANGED <<sid, stopk, owed, seen, reported, announced, sent, amb, inj, prom, cnt, viol, aborted, shape, lastinj, foundby, lastreq>>
+       [] OTHER -> UNCHANGED <<sid, stopk, owed, seen, reported, announced, sent, amb, inj, prom, cnt, viol, aborted, shape, lastinj, foundby, maxout, lastreq>>
 
 Finish == /\ l = Len(Rec) + 1
           /\ PrintT(<<"VERDICT", ToJson([n |-> Len(Rec), viol |-> viol])>>)
           /\ l' = l + 1
-          /\ UNCHANGED <<sid, stopk, owed, seen, reported, announced, sent, amb, inj, prom, cnt, viol, aborted, shape, lastinj, foundby, lastreq>>
+          /\ UNCHANGED <<sid, stopk, owed, seen, reported, announced, sent, amb, inj, prom, cnt, viol, aborted, shape, lastinj, foundby, maxout, lastreq>>
 
 Next == Consume \/ Finish
 TraceSpec == Init /\ [][Next]_vars
